@@ -108,6 +108,20 @@ pub fn programs(kind: &str, src: &[String]) -> Vec<(String, String)> {
             v.push((format!("{tag} in-record"), format!("w = {{\n  a: {},\n  b: 2\n}}", render(kind, src, tc, fancy, "  "))));
             v.push((format!("{tag} lambda"), format!("f = q => {c}")));
             v.push((format!("{tag} in-do"), format!("do {{\n  t = {}\n  return t\n}}", render(kind, src, tc, fancy, "  "))));
+            // the container in every other expression position the grammar has
+            v.push((format!("{tag} binop-left"), format!("z = {c} == 0")));
+            v.push((format!("{tag} binop-right"), format!("z = 0 == {c}")));
+            v.push((format!("{tag} unary"), format!("z = -{c}")));
+            v.push((format!("{tag} if-then"), format!("z = if true then {c} else 0")));
+            v.push((format!("{tag} if-else"), format!("z = if true then 0 else {c}")));
+            v.push((format!("{tag} spread"), if kind == "rec" { format!("z = {{...{c}}}") } else { format!("z = [...{c}]") }));
+            v.push((format!("{tag} call-arg"), format!("z = f(1, {c})")));
+            v.push((format!("{tag} callee"), format!("z = ({c})(1)")));
+            v.push((format!("{tag} access"), format!("z = {c}[0]")));
+            v.push((format!("{tag} via-left"), format!("z = {c} via (q => q)")));
+            v.push((format!("{tag} output"), format!("output z = {c}")));
+            v.push((format!("{tag} do-return"), format!("do {{\n  return {}\n}}", render(kind, src, tc, fancy, "  "))));
+            v.push((format!("{tag} record-key"), format!("w = {{\n  [{}]: 1\n}}", render(kind, src, tc, fancy, "  "))));
         }
     }
     v
